@@ -154,6 +154,18 @@ func GenH14(t *rapid.T) HCase {
 		first.Args = chainArgs6["server_id"][0]
 	}
 	c.Plugins = append([]PluginSpec{first}, rest...)
+	if c.V6 && rapid.Bool().Draw(t, "one-block-pool") {
+		// a pool of a single block: every client after the first meets the "nothing left" paths
+		has := false
+		for i := range c.Plugins {
+			if c.Plugins[i].Name == "prefix" {
+				c.Plugins[i].Args, has = chainArgs6["prefix"][3], true
+			}
+		}
+		if !has {
+			c.Plugins = append(c.Plugins, PluginSpec{Name: "prefix", Args: chainArgs6["prefix"][3]})
+		}
+	}
 	return c
 }
 
